@@ -18,7 +18,7 @@ import ast
 from z3 import *
 from pyvc.core import *
 from contracts.graph_theory import *
-from contracts.task import (F, EMPTY, H, Inv, INV_LABELS, U1, F1below, F2below, walk_pre, oblige_struct, c_all_children, c_check_links, parent_setter_call, links_cross, clashfn, _Quiet,
+from contracts.task import (F, EMPTY, H, Inv, INV_LABELS, U1, F1below, F2below, walk_pre, oblige_struct, c_all_children, c_check_links, parent_setter_call, links_cross, clashfn, _Quiet, roots_after,
                             links_cross_def, LinkPlugin, KID_AX, kid, t_, c_, a_, b_, u_, w_, c_id)
 from pyvc.unit import Unit
 
@@ -153,6 +153,9 @@ def children_setter_unit(late=False):
                     'ancestry-is-the-old-one-cut-above-the-children-passed': ForAll([a_, x], Desc(h.par, a_, x) == And(Desc(g.par, a_, x), Not(And(released(c, x, k), Not(insub(g.par, kd(x), a_))))),
                                                                                     patterns=[Desc(h.par, a_, x)]),
                     'C01/F4-no-task-is-its-own-ancestor': Acyc(h.par)}
+        def inv_B_roots(c):
+            h, g = hc(c), h0(c); k = c['_i1']; kd = lambda x: kid(g.par, me(c), x)
+            return ForAll([x], Implies(x != null, rootof(h.par, x) == If(released(c, x, k), kd(x), rootof(g.par, x))), patterns=[rootof(h.par, x)])
         BL = ['frame', 'parents-of-the-children-passed-are-cleared', 'owners-below-the-released-children-are-cleared', 'ancestry-is-the-old-one-cut-above-the-children-passed', 'C01/F4-no-task-is-its-own-ancestor']
         # ---------------------------------------------------------------- attach loop
         def viol(h):
@@ -211,11 +214,15 @@ def children_setter_unit(late=False):
                     'late/new-descendants-appear-only-under-the-task-and-its-ancestors': ForAll([t_, x], Implies(Desc(h.par, t_, x), Or(Desc(g.par, t_, x), t_ == m, Desc(g.par, t_, m))), patterns=[Desc(h.par, t_, x)]),
                     'late/the-receiving-tree-only-gains-incoming-tasks': ForAll([x], Implies(insub(h.par, R0(c), x), Or(insub(g.par, R0(c), x), NEW0(c, x))), patterns=[Desc(h.par, R0(c), x)]),
                     'late/the-root-of-the-receiving-tree-is-unchanged': receiving_root(h, m) == R0(c),
+                    'late/tasks-of-one-tree-were-in-one-tree-or-are-both-in-the-receiving-tree-or-incoming':
+                        ForAll([x, y_], Implies(And(x != null, y_ != null, x != y_, rootof(h.par, x) == rootof(h.par, y_)),
+                                                Or(rootof(g.par, x) == rootof(g.par, y_), And(Or(insub(g.par, R0(c), x), NEW0(c, x)), Or(insub(g.par, R0(c), y_), NEW0(c, y_))))),
+                               patterns=[MultiPattern(rootof(h.par, x), rootof(h.par, y_))]),
                     'late/ids-are-unique-within-the-receiving-tree': ForAll([x, y_], Implies(And(x != y_, insub(g.par, R0(c), x), insub(g.par, R0(c), y_)), g.tid[x] != g.tid[y_]), patterns=[MultiPattern(g.tid[x], g.tid[y_])]),
                     'late/no-incoming-task-has-the-id-of-a-task-of-the-receiving-tree': ForAll([x, y_], Implies(And(NEW0(c, x), insub(g.par, R0(c), y_)), g.tid[x] != g.tid[y_]), patterns=[MultiPattern(g.tid[x], g.tid[y_])]),
                     'late/no-two-incoming-tasks-share-an-id': ForAll([x, y_], Implies(And(x != y_, NEW0(c, x), NEW0(c, y_)), g.tid[x] != g.tid[y_]), patterns=[MultiPattern(g.tid[x], g.tid[y_])])}
         LL = list(['late/ancestors-of-the-task-unchanged', 'late/owners-are-the-old-ones-none-or-the-owner-of-the-task', 'late/new-descendants-appear-only-under-the-task-and-its-ancestors',
-                                               'late/the-receiving-tree-only-gains-incoming-tasks', 'late/the-root-of-the-receiving-tree-is-unchanged', 'late/ids-are-unique-within-the-receiving-tree', 'late/no-incoming-task-has-the-id-of-a-task-of-the-receiving-tree', 'late/no-two-incoming-tasks-share-an-id'])
+                                               'late/the-receiving-tree-only-gains-incoming-tasks', 'late/the-root-of-the-receiving-tree-is-unchanged', 'late/tasks-of-one-tree-were-in-one-tree-or-are-both-in-the-receiving-tree-or-incoming', 'late/ids-are-unique-within-the-receiving-tree', 'late/no-incoming-task-has-the-id-of-a-task-of-the-receiving-tree', 'late/no-two-incoming-tasks-share-an-id'])
 
         def c_clash_list_late(eng, st, recv, args, kws, node):
             h = H(eng, st); r = CLASHL(h.par, h.tid, h.own, args[0].e, args[1].e)
@@ -241,14 +248,19 @@ def children_setter_unit(late=False):
             st.oblige('C15/the-attach-loop-cannot-refuse/cycle-test', Not(insub(h.par, v, m)), f'@{node.lineno}')
             st.oblige('C15/the-attach-loop-cannot-refuse/link-test', Not(links_cross(h, v, m)), f'@{node.lineno}')
             res = parent_setter_call(eng, _Quiet(st), v, m, node.lineno, X=viol(h))
-            return [(s2, r) for s2, r in res if not isinstance(r, Raise)]          # the refusal has just been shown impossible
+            out = []
+            for s2, r in res:
+                if isinstance(r, Raise): continue          # the refusal has just been shown impossible
+                s2.assume(roots_after(h, H(eng, s2), v, m))          # closed form of the tree roots after the move (lemma of Task.parent.setter[ids])
+                out.append((s2, r))
+            return out
         FL = LABS + ['C16/children-list-is-exactly-the-given-list', 'C16/every-named-task-reports-this-parent', 'C11,C16/children-left-out-are-detached', 'C16/parents-of-all-other-tasks-unchanged',
                      'C16/other-children-lists-only-lose-the-named-tasks', 'C16/dependency-lists-ids-and-list-objects-unchanged', 'C01,C05,C11/accepted-only-without-a-reason-to-reject']
         fc = {'sig': {'self': T, 'value': LT}, 'ghost': {'attach_rejected': BOOL},
               'requires': [(l_, (lambda l_: lambda c: Inv(hc(c))[l_])(l_)) for l_ in LABS] + [('self-non-null', lambda c: me(c) != null), ('ghost-flag-starts-false', lambda c: Not(c.st.ghost['attach_rejected']))],
               'loops': {0: {'fingerprint': 'for ch in value', 'invariant': [('checks-passed-so-far-nothing-written', inv_A)]},
                         1: {'fingerprint': 'for v in self.__children', 'havoc_heap': ['Task._Task__parent', 'Task._Task__wbs'],
-                            'invariant': [('release/' + l_, (lambda l_: lambda c: inv_B(c)[l_])(l_)) for l_ in BL]},
+                            'invariant': [('release/' + l_, (lambda l_: lambda c: inv_B(c)[l_])(l_)) for l_ in BL] + ([('release/tree-roots-after-the-cuts', inv_B_roots)] if late else [])},
                         2: {'fingerprint': 'for v in value', 'havoc_heap': ['Task._Task__parent', 'Task._Task__wbs', 'PyList.elems'],
                             'invariant': [('attach/' + l_, (lambda l_: lambda c: inv_C(c)[l_])(l_)) for l_ in CL] + ([(l_, (lambda l_: lambda c: inv_L(c)[l_])(l_)) for l_ in LL] if late else [])},
                         },
@@ -274,7 +286,7 @@ def children_setter_unit(late=False):
         if late:
             fc['requires'] = fc['requires'] + [(U1, lambda c: Inv(hc(c))[U1]), ('ghost-name-of-the-receiving-root', lambda c: c.st.ghost['R0'] == receiving_root(hc(c), me(c)))]
             fc['ghost'] = dict(fc['ghost'], R0=T)
-            fc['ensures'] = []; fc['raises'] = {'RuntimeError': []}
+            fc['ensures'] = [(U1, lambda c: Inv(hc(c))[U1])]; fc['raises'] = {'RuntimeError': []}
             contracts.update({'fn:_has_id_intersection': c_clash_list_late, 'setprop:Task.parent': c_set_parent_late})
             e = Engine(F, 'Task.children.setter', contracts, TASK_CLASSES, fc, plugins=[LatePlugin()]); e.oblige_only = ()          # call-site obligations of the callees: discharged in the core unit
             return e, LIST_AX + LIST_DL_AX + GRAPH_AX + KID_AX + ROOT_AX + ONE_AX
@@ -315,7 +327,7 @@ def children_setter_call(eng, st, m, Vv, line):
     st.oblige('req@children.setter/task-non-null', m != null, f'@{line}')
     st.oblige('req@children.setter/list-of-public-tasks', ForAll([x], Implies(mem(Vv, x), And(x != null, g.tid[x] != EMPTY)), patterns=[mem(Vv, x)]), f'@{line}')
     rc = reasons(g, m, Vv)
-    exc1 = st.fork(rc); exc2 = st.fork(Not(rc)); ok = st.fork(Not(rc))
+    exc1 = st.fork(rc); exc2 = st.fork(And(Not(rc), Not(Inv(g)[U1]))); ok = st.fork(Not(rc))          # a refusal out of the attach loop needs ids that were not unique before (unit [no-late-refusal])
     for s2 in (exc2, ok):
         for k in ('Task._Task__parent', 'Task._Task__wbs', 'PyList.elems'): eng.havoc(s2, k)
     exc2.ghost['attach_rejected'] = BoolVal(True)
@@ -323,6 +335,7 @@ def children_setter_call(eng, st, m, Vv, line):
     for lab, f in Inv(h).items():
         if lab != U1: ok.assume(f)
     for f in setter_effect(h, g, m, Vv).values(): ok.assume(f)
+    ok.assume(Implies(Inv(g)[U1], Inv(h)[U1]))          # ids stay unique within every tree (unit [no-late-refusal])
     return [(ok, V(None, NONE)), (exc1, Raise('RuntimeError')), (exc2, Raise('RuntimeError'))]
 
 
@@ -338,8 +351,8 @@ def roots_setter_unit():
                           [('wbs-non-null', lambda c: c['self'] != W.null), ('ghost-flag-starts-false', lambda c: Not(c.st.ghost['attach_rejected'])),
                            ('list-of-public-tasks', lambda c: ForAll([x], Implies(mem(c['value'], x), And(x != null, hc(c).tid[x] != EMPTY))))],
               'raises': {'RuntimeError': [('C15/a-call-rejected-by-a-check-changes-nothing', lambda c: Or(c.st.ghost['attach_rejected'], And(hc(c).par == h0(c).par, hc(c).own == h0(c).own, hc(c).elems == h0(c).elems))),
-                                          ('C01,C05,C11/rejected-by-a-check-only-for-a-stated-reason', lambda c: Or(c.st.ghost['attach_rejected'], reasons(h0(c), root(c), c['value'])))]},
-              'ensures': [(l_, (lambda l_: lambda c: Inv(hc(c))[l_])(l_)) for l_ in LABS] +
+                                          ('C01,C05,C11/rejected-by-a-check-only-for-a-stated-reason', lambda c: Or(c.st.ghost['attach_rejected'], reasons(h0(c), root(c), c['value']))), ('C15/a-refusal-out-of-the-attach-loop-needs-ids-that-were-not-unique', lambda c: Implies(c.st.ghost['attach_rejected'], Not(Inv(H(c.eng, c.pre))[U1])))]},
+              'ensures': [(l_, (lambda l_: lambda c: Inv(hc(c))[l_])(l_)) for l_ in LABS] + [('C05/ids-stay-unique-within-every-tree', lambda c: Implies(Inv(H(c.eng, c.pre))[U1], Inv(H(c.eng, c.st))[U1]))] +
                          [(l_.replace('children-list', 'list-of-root-tasks'), (lambda l_: lambda c: setter_effect(hc(c), h0(c), root(c), c['value'])[l_])(l_)) for l_ in SETTER_FINAL]}
         return Engine('pjplan/wbs.py', 'WBS.roots.setter', {'setprop:Task.children': c_set_children}, TASK_CLASSES, fc, plugins=[ChildrenPlugin()]), LIST_AX + GRAPH_AX
     return Unit('WBS.roots.setter', 'pjplan/wbs.py', build, ['C01', 'C11', 'C15', 'C16'], timeout_ms=15000)
@@ -362,8 +375,8 @@ def facade_remove_unit():
               'requires': [(l_, (lambda l_: lambda c: Inv(hc(c))[l_])(l_)) for l_ in LABS] +
                           [('facade-of-a-task-reading-its-current-children-list', lambda c: And(c['self'] != FAC.null, fp(c) != null, fl(c) == hc(c).chl[fp(c)])),
                            ('ghost-flag-starts-false', lambda c: Not(c.st.ghost['attach_rejected']))],
-              'raises': {'RuntimeError': [('C15/rejected-before-anything-is-written-changes-nothing', lambda c: Or(c.st.ghost['attach_rejected'], unchanged(c)))]},
-              'ensures': [('C16/return-value-tells-membership', lambda c: c.result.e == mem(L0(c), c['task'])),
+              'raises': {'RuntimeError': [('C15/rejected-before-anything-is-written-changes-nothing', lambda c: Or(c.st.ghost['attach_rejected'], unchanged(c))), ('C15/a-refusal-out-of-the-attach-loop-needs-ids-that-were-not-unique', lambda c: Implies(c.st.ghost['attach_rejected'], Not(Inv(H(c.eng, c.pre))[U1])))]},
+              'ensures': [('C05/ids-stay-unique-within-every-tree', lambda c: Implies(Inv(H(c.eng, c.pre))[U1], Inv(H(c.eng, c.st))[U1])), ('C16/return-value-tells-membership', lambda c: c.result.e == mem(L0(c), c['task'])),
                           ('C15,C16/a-task-that-is-not-listed-changes-nothing', lambda c: Implies(Not(mem(L0(c), c['task'])), unchanged(c))),
                           ('C16/list-is-the-old-list-without-the-task-order-kept', lambda c: Implies(mem(L0(c), c['task']),
                               And(ForAll([x], mem(hc(c).ch(fp(c, 'pre')), x) == And(mem(L0(c), x), x != c['task'])),
@@ -397,14 +410,14 @@ def c_facade_remove(eng, st, recv, args, kws, node):
     for lab, f in Inv(g).items():
         if lab != U1: st.oblige(f'req@children.remove/{lab}', f, f'@{node.lineno}')
     st.oblige('req@children.remove/facade-of-a-task-reading-its-current-children-list', And(recv.e != FAC.null, p != null, Select(eng.field(st, 'ChildrenFacade', '_list'), recv.e) == g.chl[p]), f'@{node.lineno}')
-    none = st.fork(task == null); absent = st.fork(And(task != null, Not(mem(g.ch(p), task)))); found = st.fork(And(task != null, mem(g.ch(p), task))); rej = st.fork(And(task != null, mem(g.ch(p), task)))
+    none = st.fork(task == null); absent = st.fork(And(task != null, Not(mem(g.ch(p), task)))); found = st.fork(And(task != null, mem(g.ch(p), task))); rej = st.fork(And(task != null, mem(g.ch(p), task), Not(Inv(g)[U1])))
     for s2 in (found, rej):
         for k in ('Task._Task__parent', 'Task._Task__wbs', 'PyList.elems'): eng.havoc(s2, k)
     rej.ghost['attach_rejected'] = BoolVal(True)
     h = H(eng, found)
     for lab, f in Inv(h).items():
         if lab != U1: found.assume(f)
-    found.assume(removal_effect(h, g, p, task))
+    found.assume(removal_effect(h, g, p, task)); found.assume(Implies(Inv(g)[U1], Inv(h)[U1]))
     return [(absent, V(BoolVal(False), BOOL)), (found, V(BoolVal(True), BOOL)), (none, Raise('RuntimeError')), (rej, Raise('RuntimeError'))]
 
 
@@ -427,14 +440,14 @@ def wbs_remove_units():
         st.oblige('req@recursive-call/start-task-non-null', cur != null, f'@{node.lineno}')
         if rec: st.oblige('dec/C14/height-decreases-at-the-recursive-call', And(hgt(g.par, cur) < hgt(g.par, me), hgt(g.par, cur) >= 0), f'@{node.lineno}')
         below = And(task != null, Desc(g.par, cur, task))
-        no = st.fork(Not(below)); yes = st.fork(below); rej = st.fork(below)
+        no = st.fork(Not(below)); yes = st.fork(below); rej = st.fork(And(below, Not(Inv(g)[U1])))
         for s2 in (yes, rej):
             for k in ('Task._Task__parent', 'Task._Task__wbs', 'PyList.elems'): eng.havoc(s2, k)
         rej.ghost['attach_rejected'] = BoolVal(True)
         h = H(eng, yes)
         for lab, f in Inv(h).items():
             if lab != U1: yes.assume(f)
-        yes.assume(removal_effect(h, g, g.par[task], task))
+        yes.assume(removal_effect(h, g, g.par[task], task)); yes.assume(Implies(Inv(g)[U1], Inv(h)[U1]))
         return [(no, V(BoolVal(False), BOOL)), (yes, V(BoolVal(True), BOOL)), (rej, Raise('RuntimeError'))]
 
     def build_rec():
@@ -448,8 +461,8 @@ def wbs_remove_units():
         fc = {'sig': {'self': W, 'task_to_remove': T, 'current': T}, 'ghost': {'attach_rejected': BOOL},
               'requires': [(l_, (lambda l_: lambda c: Inv(hc(c))[l_])(l_)) for l_ in LABS] + [('wbs-and-start-task-non-null', lambda c: And(c['self'] != W.null, c['current'] != null)), ('ghost-flag-starts-false', lambda c: Not(c.st.ghost['attach_rejected']))],
               'loops': {0: {'fingerprint': 'for ch in current.children', 'invariant': [('not-below-the-children-visited-so-far-nothing-changed', inv)]}},
-              'raises': {'RuntimeError': [('C15/only-the-removal-itself-may-be-refused', lambda c: c.st.ghost['attach_rejected'])]},
-              'ensures': [(l_, (lambda l_: lambda c: spec(c, c['current'])[l_])(l_)) for l_ in SL] + [(l_, (lambda l_: lambda c: Inv(hc(c))[l_])(l_)) for l_ in LABS]}
+              'raises': {'RuntimeError': [('C15/only-the-removal-itself-may-be-refused', lambda c: c.st.ghost['attach_rejected']), ('C15/a-refusal-out-of-the-attach-loop-needs-ids-that-were-not-unique', lambda c: Implies(c.st.ghost['attach_rejected'], Not(Inv(H(c.eng, c.pre))[U1])))]},
+              'ensures': [('C05/ids-stay-unique-within-every-tree', lambda c: Implies(Inv(H(c.eng, c.pre))[U1], Inv(H(c.eng, c.st))[U1]))] + [(l_, (lambda l_: lambda c: spec(c, c['current'])[l_])(l_)) for l_ in SL] + [(l_, (lambda l_: lambda c: Inv(hc(c))[l_])(l_)) for l_ in LABS]}
         contracts = {'prop:Task.children': c_children, 'ChildrenFacade.remove': c_facade_remove, 'WBS._WBS__remove': c_rec}
         return Engine(FWBS, 'WBS.__remove', contracts, FAC_CLASSES, fc, plugins=[ChildrenPlugin()]), LIST_AX + GRAPH_AX + KID_AX + MEASURE_AX
     def build_remove():
@@ -464,8 +477,8 @@ def wbs_remove_units():
                 return ChildrenPlugin.call(self, eng, e, st)
         fc = {'sig': {'self': W, 'task': T}, 'ghost': {'attach_rejected': BOOL},
               'requires': [(l_, (lambda l_: lambda c: Inv(hc(c))[l_])(l_)) for l_ in LABS] + [('wbs-non-null', lambda c: c['self'] != W.null), ('ghost-flag-starts-false', lambda c: Not(c.st.ghost['attach_rejected']))],
-              'raises': {'RuntimeError': [('C15/refused-only-for-None-or-by-the-removal-itself', lambda c: Or(c.st.ghost['attach_rejected'], And(c['task'] == null, hc(c).par == h0(c).par, hc(c).own == h0(c).own, hc(c).elems == h0(c).elems)))]},
-              'ensures': [('C11,C16/returns-whether-the-task-is-a-member-of-this-WBS', lambda c: c.result.e == Desc(h0(c).par, root(c), c['task'])),
+              'raises': {'RuntimeError': [('C15/refused-only-for-None-or-by-the-removal-itself', lambda c: Or(c.st.ghost['attach_rejected'], And(c['task'] == null, hc(c).par == h0(c).par, hc(c).own == h0(c).own, hc(c).elems == h0(c).elems))), ('C15/a-refusal-out-of-the-attach-loop-needs-ids-that-were-not-unique', lambda c: Implies(c.st.ghost['attach_rejected'], Not(Inv(H(c.eng, c.pre))[U1])))]},
+              'ensures': [('C05/ids-stay-unique-within-every-tree', lambda c: Implies(Inv(H(c.eng, c.pre))[U1], Inv(H(c.eng, c.st))[U1])), ('C11,C16/returns-whether-the-task-is-a-member-of-this-WBS', lambda c: c.result.e == Desc(h0(c).par, root(c), c['task'])),
                           ('C15,C16/nothing-changes-for-a-task-that-is-no-member', lambda c: Implies(Not(Desc(h0(c).par, root(c), c['task'])), And(hc(c).par == h0(c).par, hc(c).own == h0(c).own, hc(c).elems == h0(c).elems))),
                           ('C11,C16/a-member-is-removed-from-the-children-of-its-parent-and-detached', lambda c: Implies(Desc(h0(c).par, root(c), c['task']), removal_effect(hc(c), h0(c), h0(c).par[c['task']], c['task'])))] +
                          [(l_, (lambda l_: lambda c: Inv(hc(c))[l_])(l_)) for l_ in LABS]}
@@ -571,8 +584,8 @@ def floordiv_unit():
                           [('task-non-null', lambda c: me(c) != null), ('ghost-flag-starts-false', lambda c: Not(c.st.ghost['attach_rejected'])),
                            ('named-tasks-are-public-new-and-not-repeated', lambda c: And(nodup(c['other']), ForAll([x], Implies(mem(c['other'], x), And(x != null, hc(c).tid[x] != EMPTY, Not(mem(hc(c).ch(me(c)), x)))))))],
               'raises': {'RuntimeError': [('C15/a-call-rejected-by-a-check-changes-nothing', lambda c: Or(c.st.ghost['attach_rejected'], unchanged(c))),
-                                          ('C01,C05,C11/rejected-by-a-check-only-for-a-stated-reason', lambda c: Or(c.st.ghost['attach_rejected'], reasons(h0(c), me(c), Vv(c))))]},
-              'ensures': [(l_, (lambda l_: lambda c: Inv(hc(c))[l_])(l_)) for l_ in LABS] +
+                                          ('C01,C05,C11/rejected-by-a-check-only-for-a-stated-reason', lambda c: Or(c.st.ghost['attach_rejected'], reasons(h0(c), me(c), Vv(c)))), ('C15/a-refusal-out-of-the-attach-loop-needs-ids-that-were-not-unique', lambda c: Implies(c.st.ghost['attach_rejected'], Not(Inv(H(c.eng, c.pre))[U1])))]},
+              'ensures': [(l_, (lambda l_: lambda c: Inv(hc(c))[l_])(l_)) for l_ in LABS] + [('C05/ids-stay-unique-within-every-tree', lambda c: Implies(Inv(H(c.eng, c.pre))[U1], Inv(H(c.eng, c.st))[U1]))] +
                          [('C16/children-are-the-old-ones-followed-by-the-named-tasks', lambda c: hc(c).ch(me(c)) == Vv(c)),
                           ('C16/every-named-task-reports-this-parent', lambda c: ForAll([x], Implies(mem(c['other'], x), hc(c).par[x] == me(c)))),
                           ('C16/parents-of-all-other-tasks-unchanged', lambda c: ForAll([x], Implies(Not(mem(c['other'], x)), hc(c).par[x] == h0(c).par[x]))),
@@ -884,14 +897,14 @@ def wbs_remove_all_unit():
                 if lab != U1: st.oblige(f'req@__remove/{lab}', f, f'@{node.lineno}')
             st.oblige('req@__remove/start-task-non-null', cur != null, f'@{node.lineno}')
             below = And(task != null, Desc(g.par, cur, task))
-            no = st.fork(Not(below)); yes = st.fork(below); rej = st.fork(below)
+            no = st.fork(Not(below)); yes = st.fork(below); rej = st.fork(And(below, Not(Inv(g)[U1])))
             for s2 in (yes, rej):
                 for k in ('Task._Task__parent', 'Task._Task__wbs', 'PyList.elems'): eng.havoc(s2, k)
             rej.ghost['attach_rejected'] = BoolVal(True)
             h = H(eng, yes)
             for lab, f in Inv(h).items():
                 if lab != U1: yes.assume(f)
-            yes.assume(removal_effect(h, g, g.par[task], task)); yes.assume(h.par == Store(g.par, task, null))
+            yes.assume(removal_effect(h, g, g.par[task], task)); yes.assume(h.par == Store(g.par, task, null)); yes.assume(Implies(Inv(g)[U1], Inv(h)[U1]))
             return [(no, V(BoolVal(False), BOOL)), (yes, V(BoolVal(True), BOOL)), (rej, Raise('RuntimeError'))]
 
         class RPlugin(ChildrenPlugin):
@@ -908,7 +921,8 @@ def wbs_remove_all_unit():
         def inv(c):
             h, g = hc(c), h0(c); i = c['_i0']; S_ = SEL(c); r = root(c)
             d = {l_: v for l_, v in Inv(h).items() if l_ != U1}
-            d.update({'frame': And(h.root == g.root, h.tid == g.tid, h.chl == g.chl, c['tasks_to_delete'] == S_, i >= 0, i <= ln(S_), Not(c.st.ghost['attach_rejected']), c['self'] != W.null),
+            d.update({'ids-stay-unique': Implies(Inv(g)[U1], Inv(h)[U1]),
+                      'frame': And(h.root == g.root, h.tid == g.tid, h.chl == g.chl, c['tasks_to_delete'] == S_, i >= 0, i <= ln(S_), Not(c.st.ghost['attach_rejected']), c['self'] != W.null),
                       'members-are-the-old-members-not-below-a-task-removed-so-far': ForAll([x], member(h, c, x) == And(member(g, c, x), Not(cov(S_, g.par, i, x))), patterns=[Desc(h.par, r, x)]),
                       'removed-so-far-is-closed-downwards': ForAll([a_, x], Implies(And(cov(S_, g.par, i, a_), insub(g.par, a_, x)), cov(S_, g.par, i, x)), patterns=[MultiPattern(cov(S_, g.par, i, a_), Desc(g.par, a_, x))]),
                       'selected-tasks-passed-are-removed': ForAll([x], Implies(And(mem(S_, x), idx(S_, x) < i), cov(S_, g.par, i, x)), patterns=[mem(S_, x)]),
@@ -916,13 +930,13 @@ def wbs_remove_all_unit():
                       'ancestry-among-the-remaining-members-is-unchanged': ForAll([a_, x], Implies(And(Desc(g.par, a_, x), member(h, c, x), Or(a_ == r, member(h, c, a_))), Desc(h.par, a_, x)),
                                                                                  patterns=[MultiPattern(Desc(g.par, a_, x), Desc(h.par, r, x))])})
             return d
-        IL = LABS + ['frame', 'members-are-the-old-members-not-below-a-task-removed-so-far', 'removed-so-far-is-closed-downwards', 'selected-tasks-passed-are-removed', 'ancestry-only-shrinks', 'ancestry-among-the-remaining-members-is-unchanged']
+        IL = LABS + ['ids-stay-unique', 'frame', 'members-are-the-old-members-not-below-a-task-removed-so-far', 'removed-so-far-is-closed-downwards', 'selected-tasks-passed-are-removed', 'ancestry-only-shrinks', 'ancestry-among-the-remaining-members-is-unchanged']
         fc = {'sig': {'self': W, 'key': ANY, 'kwargs': KWD}, 'locals': {'tasks_to_delete': LT}, 'ghost': {'attach_rejected': BOOL},
               'requires': [(l_, (lambda l_: lambda c: Inv(hc(c))[l_])(l_)) for l_ in LABS] + [('wbs-non-null', lambda c: c['self'] != W.null), ('ghost-flag-starts-false', lambda c: Not(c.st.ghost['attach_rejected']))],
               'loops': {0: {'fingerprint': 'for t in tasks_to_delete', 'havoc_heap': ['Task._Task__parent', 'Task._Task__wbs', 'PyList.elems'],
                             'invariant': [('removal/' + l_, (lambda l_: lambda c: inv(c)[l_])(l_)) for l_ in IL]}},
-              'raises': {'RuntimeError': [('C15/only-a-removal-itself-may-be-refused', lambda c: c.st.ghost['attach_rejected'])]},
-              'ensures': [(l_, (lambda l_: lambda c: Inv(hc(c))[l_])(l_)) for l_ in LABS] +
+              'raises': {'RuntimeError': [('C15/only-a-removal-itself-may-be-refused', lambda c: c.st.ghost['attach_rejected']), ('C15/a-refusal-out-of-the-attach-loop-needs-ids-that-were-not-unique', lambda c: Implies(c.st.ghost['attach_rejected'], Not(Inv(H(c.eng, c.pre))[U1])))]},
+              'ensures': [(l_, (lambda l_: lambda c: Inv(hc(c))[l_])(l_)) for l_ in LABS] + [('C05/ids-stay-unique-within-every-tree', lambda c: Implies(Inv(H(c.eng, c.pre))[U1], Inv(H(c.eng, c.st))[U1]))] +
                          [('C18/returns-the-selected-tasks', lambda c: Or(c.result.e == SEL(c), And(ln(SEL(c)) == 0, ln(c.result.e) == 0)) if SEL(c) is not None else BoolVal(False)),
                           ('C11,C18/members-afterwards-are-exactly-the-members-that-were-not-selected-and-not-below-a-selected-task',
                            lambda c: ForAll([x], member(hc(c), c, x) == And(member(h0(c), c, x), Not(cov(SEL(c), h0(c).par, ln(SEL(c)), x))))),
@@ -965,7 +979,8 @@ def facade_remove_all_unit():
         def inv(c):
             h, g = hc(c), h0(c); i = c['_i0']; S_ = SEL(c); p = fp(c, 'pre'); C = L0(c)
             d = {l_: v for l_, v in Inv(h).items() if l_ != U1}
-            d.update({'frame': And(h.root == g.root, h.tid == g.tid, h.chl == g.chl, c['tasks_to_delete'] == S_, i >= 0, i <= ln(S_), Not(c.st.ghost['attach_rejected']), c['self'] != FAC.null, p != null,
+            d.update({'ids-stay-unique': Implies(Inv(g)[U1], Inv(h)[U1]),
+                      'frame': And(h.root == g.root, h.tid == g.tid, h.chl == g.chl, c['tasks_to_delete'] == S_, i >= 0, i <= ln(S_), Not(c.st.ghost['attach_rejected']), c['self'] != FAC.null, p != null,
                                    fp(c) == p, fl(c) == g.chl[p]),
                       'children-left-are-the-old-ones-without-the-selected-tasks-passed': ForAll([x], mem(h.ch(p), x) == And(mem(C, x), Not(And(mem(S_, x), idx(S_, x) < i))), patterns=[mem(h.ch(p), x)]),
                       'order-of-the-children-left-is-kept': ForAll([a_, b_], Implies(And(mem(h.ch(p), a_), mem(h.ch(p), b_)), (idx(h.ch(p), a_) < idx(h.ch(p), b_)) == (idx(C, a_) < idx(C, b_))),
@@ -973,15 +988,15 @@ def facade_remove_all_unit():
                       'tasks-removed-so-far-are-detached': ForAll([x], Implies(And(mem(S_, x), idx(S_, x) < i), And(h.par[x] == null, h.own[x] == W.null)), patterns=[mem(S_, x)]),
                       'parents-of-the-other-tasks-unchanged': ForAll([x], Implies(Not(And(mem(S_, x), idx(S_, x) < i)), h.par[x] == g.par[x]), patterns=[h.par[x]])})
             return d
-        IL = LABS + ['frame', 'children-left-are-the-old-ones-without-the-selected-tasks-passed', 'order-of-the-children-left-is-kept', 'tasks-removed-so-far-are-detached', 'parents-of-the-other-tasks-unchanged']
+        IL = LABS + ['ids-stay-unique', 'frame', 'children-left-are-the-old-ones-without-the-selected-tasks-passed', 'order-of-the-children-left-is-kept', 'tasks-removed-so-far-are-detached', 'parents-of-the-other-tasks-unchanged']
         fc = {'sig': {'self': FAC, 'key': ANY, 'kwargs': KWD}, 'locals': {'tasks_to_delete': LT}, 'ghost': {'attach_rejected': BOOL},
               'requires': [(l_, (lambda l_: lambda c: Inv(hc(c))[l_])(l_)) for l_ in LABS] +
                           [('facade-of-a-task-reading-its-current-children-list', lambda c: And(c['self'] != FAC.null, fp(c) != null, fl(c) == hc(c).chl[fp(c)])),
                            ('ghost-flag-starts-false', lambda c: Not(c.st.ghost['attach_rejected']))],
               'loops': {0: {'fingerprint': 'for t in tasks_to_delete', 'havoc_heap': ['Task._Task__parent', 'Task._Task__wbs', 'PyList.elems'],
                             'invariant': [('removal/' + l_, (lambda l_: lambda c: inv(c)[l_])(l_)) for l_ in IL]}},
-              'raises': {'RuntimeError': [('C15/only-a-removal-itself-may-be-refused', lambda c: c.st.ghost['attach_rejected'])]},
-              'ensures': [(l_, (lambda l_: lambda c: Inv(hc(c))[l_])(l_)) for l_ in LABS] +
+              'raises': {'RuntimeError': [('C15/only-a-removal-itself-may-be-refused', lambda c: c.st.ghost['attach_rejected']), ('C15/a-refusal-out-of-the-attach-loop-needs-ids-that-were-not-unique', lambda c: Implies(c.st.ghost['attach_rejected'], Not(Inv(H(c.eng, c.pre))[U1])))]},
+              'ensures': [(l_, (lambda l_: lambda c: Inv(hc(c))[l_])(l_)) for l_ in LABS] + [('C05/ids-stay-unique-within-every-tree', lambda c: Implies(Inv(H(c.eng, c.pre))[U1], Inv(H(c.eng, c.st))[U1]))] +
                          [('C18/returns-the-selected-tasks', lambda c: Or(c.result.e == SEL(c), And(ln(SEL(c)) == 0, ln(c.result.e) == 0))),
                           ('C18/children-afterwards-are-exactly-the-children-that-were-not-selected-order-kept', lambda c: And(
                               ForAll([x], mem(hc(c).ch(fp(c, 'pre')), x) == And(mem(L0(c), x), Not(mem(SEL(c), x)))),
